@@ -10,7 +10,7 @@ V = pathlib.Path(__file__).resolve().parent.parent
 AS_BUILT = {
     "C01": ("E1 llsym: C (-O1 IR) and C++14 (mirror harness); **E4 pysym: Python**", "Python target landed (round 2); capacity-255 arrays (serialization only); corpus families added after missed seeds"),
     "C02": ("E1 llsym: C and C++14; **E4 pysym: Python**", "Python landed and found two defects (fixed); bounded-domain splitting + `concretize` (§10.2)"),
-    "C03": ("E1 chain + cross-option + C↔C++; **E4: Python round trip**", "Python round trip in one symbolic run per shape; direct C↔Python queries not built (see evidence)"),
+    "C03": ("E1 chain + cross-option + C↔C++; **E4: Python round trip**; E3 lemma C↔Python float16", "Python round trip in one symbolic run per shape; C↔Python float16 packing decided over all 2^32 values (agree off ties; ties = listed finding)"),
     "C04": ("E1 on -O0+mem2reg IR (C), -O1 IR + heap discipline (C++)", "prior-state clause re-stated (§10.4); A→B fallback when the -O0 path count explodes; capacity-255 serializers"),
     "C05": ("E1 (-O1 IR, memory obligations) + ground metadata (C **and Python**) + Int lemma", "Python class attributes and constants (ground); pure-aggregate corpus types"),
     "C06": ("—", "not applicable (unchanged)"),
